@@ -824,6 +824,10 @@ class Interp:
             if dflt is not None:
                 env[kw.arg] = sub.ev(dflt, State())
         env.update(dict(zip(names, args)))
+        if a.vararg is not None:
+            env[a.vararg.arg] = tuple(args[len(names):])
+        elif len(args) > len(names):
+            raise PyRaise(ExcVal("TypeError", ("too many positional arguments",)))
         extra = {k: v for k, v in kwargs.items() if k not in names and k not in [x.arg for x in a.kwonlyargs]}
         env.update({k: v for k, v in kwargs.items() if k not in extra})
         if a.kwarg is not None:
